@@ -295,6 +295,10 @@ int set_sip_nsip(struct msa* msa)
                 msa->nsip = NULL;
         }
 
+        if(msa->numseq < 1){
+                msa->num_profiles = 0;
+                ERROR_MSG("No sequences were found.");
+        }
         msa->num_profiles = (msa->numseq << 1 )-1;
 
         MMALLOC(msa->sip,sizeof(int*)* msa->num_profiles);
